@@ -8,7 +8,7 @@
      smono st st'        st' is st with some locks removed                     (ProofsStore)
      covered pieces k    some piece contains k                                 (ProofsDel) *)
 From Verif Require Import Base.Lex RangeTask.Model RangeTask.ProofsOrd RangeTask.ProofsStore RangeTask.ProofsPart
-  RangeTask.ProofsInv RangeTask.ProofsScan RangeTask.ProofsGc RangeTask.ProofsOut RangeTask.ProofsDel RangeTask.ProofsTerm RangeTask.ProofsAsync RangeTask.ProofsVis RangeTask.ModelView RangeTask.ProofsView RangeTask.ProofsProps.
+  RangeTask.ProofsInv RangeTask.ProofsScan RangeTask.ProofsGc RangeTask.ProofsOut RangeTask.ProofsDel RangeTask.ProofsTerm RangeTask.ProofsAsync RangeTask.ProofsVis RangeTask.ModelView RangeTask.ProofsView RangeTask.ModelLayout RangeTask.ProofsLayout RangeTask.ProofsProps.
 Open Scope N_scope.
 
 (* ---- range task: for every range (unbounded end included) and every sequence of layouts, the sub-ranges
@@ -59,6 +59,20 @@ Theorem C14_no_old_lock : forall view st0 sp limit s e fuel os st st' tr,
   (forall st'', smono st' st'' -> forall r, In r st'' -> in_range s e (k_key r) = true -> old_lock sp r = false).
 Proof. exact gc_no_old_lock_v. Qed.
 Print Assumptions C14_no_old_lock.
+
+(* the same with the regions PREDICTED instead of observed (ModelLayout): for ANY sequence of layouts (lists of split keys
+   in force at the scan and at the successive ResolveLock attempts of each iteration; splits and merges alike; no side
+   condition at all) the loop never meets an inadmissible observation while layouts are left, and a finished pass has
+   cleared the range, touched nothing but by its transaction's outcome, and equals resolve_all over the whole key space *)
+Theorem C14_no_old_lock_layouts : forall st0 sp limit s e fuel ys,
+  wf_store st0 -> (0 < limit)%nat ->
+  ((fuel <= length ys)%nat -> fst (gc_resolve_range_l fuel sp limit s e ys st0) <> GcBadOracle) /\
+  (forall st' tr os, gc_resolve_range_l fuel sp limit s e ys st0 = (GcOk st' tr, os) ->
+     (forall r, In r st' -> in_range s e (k_key r) = true -> old_lock sp r = false) /\
+     (forall r', In r' st' -> exists r0, In r0 st0 /\ k_key r0 = k_key r' /\ (r' = r0 \/ r' = resolve_by_outcome st0 sp r0)) /\
+     (s = [] -> e = [] -> st' = resolve_all st0 sp)).
+Proof. exact gc_layouts. Qed.
+Print Assumptions C14_no_old_lock_layouts.
 
 (* termination within a stated fuel: if every region end ever observed lies in a finite set S (or is
    unbounded), then  #{x in S | x > s} + #old locks + #"locks no longer in one region" observations  bounds the
@@ -252,6 +266,12 @@ Proof.
 Qed.
 Example ex_gc : exists tr, gc_resolve_range 20 50 1 [] [] ex_os ex_store = GcOk (resolve_all ex_store 50) tr.
 Proof. eexists. vm_compute. reflexivity. Qed.
+(* layouts instead of regions: the region [.., 4) is split at 2 between the scan and the resolve of the first iteration (the
+   first batch {1,2} no longer fits one region => rescan), later layouts {2,4} *)
+Example ex_layouts : exists tr os,
+  gc_resolve_range_l 20 50 2 [] [] (mkLay [ex_k 4] [[ex_k 2; ex_k 4]] :: repeat (mkLay [ex_k 2; ex_k 4] []) 8) ex_store
+  = (GcOk (resolve_all ex_store 50) tr, os) /\ option_map o_res (hd_error os) = Some None.
+Proof. eexists. eexists. vm_compute. split; reflexivity. Qed.
 Example ex_gc_fuel : (above [ex_k 4; ex_k 6] [] + count_old 50 ex_store + rescans ex_os < 20)%nat /\ Forall (ends_in [ex_k 4; ex_k 6]) ex_os.
 Proof.
   split; [vm_compute; lia|]. unfold ex_os, ends_in. repeat (constructor; [cbn; tauto|]). constructor.
